@@ -44,6 +44,11 @@ def signatures_of(unit_json):
     return out
 
 
+def _short(t):
+    """A type with every path reduced to its last segment (`&liwe::model::Key` -> `&Key`): unchanged when a type moves to another module."""
+    return re.sub(r"(?:[A-Za-z_][A-Za-z0-9_]*::)+", "", str(t or ""))
+
+
 def _l2(d):
     d = re.sub(r"<[^<>]*>", "", d)
     return "::".join(d.rsplit("::", 2)[-2:])
@@ -94,13 +99,24 @@ def compute_map(units):
                     if n in mapping:
                         continue
                     sn = now[n]
+                    strict = True
                     if sn["self"] != sm["self"] or sn["trait"] != sm["trait"]:
-                        continue
+                        strict = False
                     # same module (a rename) or same name in another module of the same crate (a free fn that was moved)
                     if sn["module"] != sm["module"] and not (n.rsplit("::", 1)[-1] == m.rsplit("::", 1)[-1] and n.split("::", 1)[0] == m.split("::", 1)[0] and sm["self"] is None):
-                        continue
+                        strict = False
                     if sn["params"] != sm["params"] or sn["ret"] != sm["ret"]:
-                        continue
+                        strict = False
+                    if not strict:
+                        # relaxed reading: the fn moved (method <-> free fn <-> extension-trait method, another module, its type moved to another
+                        # module): same crate, same parameter and return types up to module paths (the receiver counts as the first parameter);
+                        # accepted further down only with a higher callee similarity
+                        if n.split("::", 1)[0].lstrip("<") != m.split("::", 1)[0].lstrip("<") and not (n.startswith("<") or m.startswith("<")):
+                            continue
+                        if [_short(t) for t in sn["params"]] != [_short(t) for t in sm["params"]] or _short(sn["ret"] or "") != _short(sm["ret"] or ""):
+                            continue
+                        if not sm["params"]:
+                            continue      # nothing to tell parameterless fns apart by
 
                     def normc(cs, own):
                         out = set()
@@ -118,6 +134,10 @@ def compute_map(units):
                     b2 = normc(_expand(sn["callees"], n, now, rec), n.rsplit("::", 1)[-1])
                     j2 = (len(a & b2) / float(len(a | b2))) if (a | b2) else 1.0
                     j = max(j, j2)
+                    if not strict:
+                        if j < 0.85 or len(a) < 2:
+                            continue
+                        j -= 0.01        # a strict match of the same quality wins
                     cands.append((j, n))
                 cands.sort(reverse=True)
                 if cands and cands[0][0] >= 0.7 and (len(cands) == 1 or cands[0][0] - cands[1][0] >= 0.2):
@@ -150,3 +170,29 @@ def apply(text, mapping):
                 text = text.replace('"name":%s"%s",%s"def":%s"%s' % (sep, nseg, sep, sep, old), '"name":%s"%s",%s"def":%s"%s' % (sep, oseg, sep, sep, old))
         # method-call nodes carry the bare method name as well: "name": "<last seg>" next to a def we just rewrote is left as is (rules use the def)
     return text
+
+
+def former_callers(units, mapping):
+    """Recorded fns that are gone from the current tree (and not recognised as renamed), each with the recorded fns that used to call it:
+    {present caller def (normalised): [missing callee def (normalised), ..]} - "the helper was inlined into its callers and deleted"."""
+    if not os.path.exists(TABLE):
+        return {}
+    with open(TABLE) as fh:
+        table = json.load(fh)
+    from .factbase import norm
+    out = {}
+    renamed_to = set(mapping.values())
+    for u in units:
+        key = "%s-%s" % (u["crate"], u["crate_type"])
+        rec = table.get(key)
+        if not rec:
+            continue
+        now = set(f["def"] for f in u.get("fns", []))
+        now_mapped = set(mapping.get(d, d) for d in now)
+        missing = [d for d in rec if d not in now_mapped and d not in renamed_to]
+        for m in missing:
+            ml2 = _l2(m)
+            for g, sg in rec.items():
+                if g in now_mapped and g != m and any(_l2(c) == ml2 or c == ml2 for c in sg.get("callees", [])):
+                    out.setdefault(norm(g), []).append(norm(m))
+    return out
